@@ -6,8 +6,30 @@
 From GM Require Import Proofs.RTac Model.Chi2 Proofs.Chi2Lists Proofs.Chi2R Proofs.Chi2Rigid Proofs.Chi2Relabel
   Proofs.Chi2RelabelFixed.
 From Coq Require Import Permutation.
+From GM Require Import Gen.Chi2Gen Proofs.Chi2GenEq.
 Import ListNotations.
 Local Open Scope R_scope.
+
+(* The tie by translation: the four methods that EVALUATE the measure (chi2_molecules,
+   _chi2_molecules_restrains_contrib, _chi2_molecules_only_restrains, _chi2_molecules_with_restrains), as generated
+   at this run from the CURRENT source text of gaddlemaps/_backend.py (Gen/Chi2Gen.v, harness/pytrans_arr.py; numpy's
+   cdist / min / argmin / sum / fancy indexing / set keep their hand-written models), are the model's three paths -
+   for every Scalar instance and every calculator state.  The constructor is tied by K only. *)
+Theorem C08_model_is_source_none : forall (T : Type) (H : Scalar T) (c : chi2_calc T) (mobile : list (V3 T)),
+  chi2_molecules_gen (c_mol1 c) mobile = chi2_none c mobile.
+Proof. exact (@chi2_molecules_gen_eq). Qed.
+Print Assumptions C08_model_is_source_none.
+
+Theorem C08_model_is_source_only : forall (T : Type) (H : Scalar T) (c : chi2_calc T) (mobile : list (V3 T)),
+  only_restrains_gen (c_mol1_r c) (c_restr2 c) (c_fact c) mobile = chi2_only c mobile.
+Proof. exact (@only_restrains_gen_eq). Qed.
+Print Assumptions C08_model_is_source_only.
+
+Theorem C08_model_is_source_with : forall (T : Type) (H : Scalar T) (c : chi2_calc T) (mobile : list (V3 T)),
+  with_restrains_gen (c_mol1_r c) (c_restr2 c) (c_notr c) (c_set2 c) (Z.of_nat (c_len2 c)) mobile
+  = chi2_with c mobile.
+Proof. exact (@with_restrains_gen_eq). Qed.
+Print Assumptions C08_model_is_source_with.
 
 (* All fixed/mobile lists with at least one mobile atom, every restraint list with indices in range
    (empty, partial, duplicated, complete), every evaluation configuration `mobile` with the
